@@ -8,6 +8,7 @@ from pb_bss.distribution.mixture_model_utils import (
 )
 from pb_bss.utils import labels_to_one_hot
 from sklearn.cluster import KMeans
+from pb_bss import _verif
 
 from . import Gaussian, GaussianTrainer
 from .utils import _ProbabilisticModel
@@ -137,6 +138,11 @@ class GMMTrainer:
                 covariance_type=covariance_type,
                 fixed_covariance=fixed_covariance,
             )
+            if _verif.ENABLED:
+                _verif.report(
+                    trainer=self, iteration=iteration, model=model,
+                    affiliation=affiliation, quadratic_form=None,
+                )
 
         return model
 
